@@ -9,7 +9,6 @@ use std::fmt;
 
 use quick_xml::Reader;
 use quick_xml::events::{BytesEnd, BytesStart, BytesText, Event};
-use stdx::str::StrExt;
 
 /// A data type that can be deserialized with AWS restXml deserializer
 pub trait Deserialize<'xml>: Sized {
@@ -357,8 +356,9 @@ impl<'xml> Deserializer<'xml> {
 
     pub fn timestamp(&mut self, fmt: TimestampFormat) -> DeResult<Timestamp> {
         self.text(|t| {
-            let string = str::from_ascii_simd(t.as_ref()).map_err(|_| DeError::InvalidContent)?;
-            Timestamp::parse(fmt, string).map_err(|_| DeError::InvalidContent)
+            // (the parsers are lenient about separators: a bare `&` must not get through as one)
+            let string = t.unescape().map_err(invalid_xml)?;
+            Timestamp::parse(fmt, &string).map_err(|_| DeError::InvalidContent)
         })
     }
 }
